@@ -121,6 +121,7 @@ func newExistCompare(keyCmp KeyCompare) skiplist.CompareFn {
 	return func(this, that unsafe.Pointer) int {
 		thisItem := (*Item)(this)
 		thatItem := (*Item)(that)
+		vyield(SiteExistCmp)
 		if thisItem.deadSn != 0 || thatItem.deadSn != 0 {
 			return 1
 		}
@@ -178,11 +179,15 @@ func (w *Writer) doCheckpoint() {
 	switch ctx.state {
 	case dwStateInit:
 		ctx.state = dwStateActive
+		vt := vblock(SiteCheckpoint)
 		ctx.notifyStatus <- nil
+		venter(SiteCheckpoint, vt)
 		ctx.err = nil
 	case dwStateTerminate:
 		ctx.state = dwStateInactive
+		vt := vblock(SiteCheckpoint)
 		ctx.notifyStatus <- ctx.err
+		venter(SiteCheckpoint, vt)
 	}
 }
 
@@ -244,6 +249,7 @@ func (w *Writer) DeleteNode(x *skiplist.Node) (success bool) {
 		}
 	}()
 
+	vyield(SiteDelSetLink)
 	x.SetLink(nil)
 	sn := w.GetCurrSn()
 	gotItem := (*Item)(x.Item())
@@ -251,12 +257,15 @@ func (w *Writer) DeleteNode(x *skiplist.Node) (success bool) {
 		success = w.store.DeleteNode(x, w.insCmp, w.buf, &w.slSts1)
 
 		barrier := w.store.GetAccesBarrier()
+		vyield(SiteDelFlush)
 		barrier.FlushSession(unsafe.Pointer(x))
 		return
 	}
 
+	vyield(SiteDelDeadCAS)
 	success = atomic.CompareAndSwapUint32(&gotItem.deadSn, 0, sn)
 	if success {
+		vyield(SiteDelAppend)
 		if w.gctail == nil {
 			w.gctail = x
 			w.gchead = w.gctail
@@ -396,7 +405,9 @@ func (m *Nitro) newBSDestructor() skiplist.BarrierSessionDestructor {
 		// If gclist is not empty
 		if ref != nil {
 			freelist := (*skiplist.Node)(ref)
+			vt := vblock(SiteDestructorSend)
 			m.freechan <- freelist
+			venter(SiteDestructorSend, vt)
 		}
 	}
 }
@@ -422,7 +433,9 @@ func (m *Nitro) MemoryInUse() int64 {
 func (m *Nitro) Close() {
 	// Wait until all snapshot iterators have finished
 	for s := m.snapshots.GetStats(); int(s.NodeCount) != 0; s = m.snapshots.GetStats() {
+		vt := vblock(SiteCloseSleep)
 		time.Sleep(time.Millisecond)
+		venter(SiteCloseSleep, vt)
 	}
 
 	m.Lock()
@@ -432,9 +445,13 @@ func (m *Nitro) Close() {
 	// Acquire gc chan ownership
 	// This will make sure that no other goroutine will write to gcchan
 	for !atomic.CompareAndSwapInt32(&m.isGCRunning, 0, 1) {
+		vt := vblock(SiteCloseSleep)
 		time.Sleep(time.Millisecond)
+		venter(SiteCloseSleep, vt)
 	}
+	vt := vblock(SiteCloseChan)
 	close(m.gcchan)
+	venter(SiteCloseChan, vt)
 
 	buf := dbInstances.MakeBuf()
 	defer dbInstances.FreeBuf(buf)
@@ -444,9 +461,15 @@ func (m *Nitro) Close() {
 		buf := m.snapshots.MakeBuf()
 		defer m.snapshots.FreeBuf(buf)
 
+		vt = vblock(SiteCloseWait)
 		m.shutdownWg1.Wait()
+		venter(SiteCloseWait, vt)
+		vt = vblock(SiteCloseChan)
 		close(m.freechan)
+		venter(SiteCloseChan, vt)
+		vt = vblock(SiteCloseWait)
 		m.shutdownWg2.Wait()
+		venter(SiteCloseWait, vt)
 
 		// Manually free up all nodes
 		iter := m.store.NewIterator(m.iterCmp, buf)
@@ -567,6 +590,7 @@ func (s *Snapshot) Open() bool {
 	if atomic.LoadInt32(&s.refCount) == 0 {
 		return false
 	}
+	vyield(SiteOpenInc)
 	atomic.AddInt32(&s.refCount, 1)
 	return true
 }
@@ -575,14 +599,18 @@ func (s *Snapshot) Open() bool {
 // Once a thread has finished using a snapshot, it can be destroyed by calling
 // Close(). Internal garbage collector takes care of freeing the items.
 func (s *Snapshot) Close() {
+	vyield(SiteCloseDec)
 	newRefcount := atomic.AddInt32(&s.refCount, -1)
 	if newRefcount == 0 {
 		buf := s.db.snapshots.MakeBuf()
 		defer s.db.snapshots.FreeBuf(buf)
+		vyield(SiteCloseRetire)
 
 		// Move from live snapshot list to dead list
 		s.db.snapshots.Delete(unsafe.Pointer(s), CompareSnapshot, buf, &s.db.snapshots.Stats)
+		vyield(SiteCloseMove)
 		s.db.gcsnapshots.Insert(unsafe.Pointer(s), CompareSnapshot, buf, &s.db.gcsnapshots.Stats)
+		vyield(SiteCloseGC)
 		s.db.GC()
 	}
 }
@@ -629,9 +657,11 @@ func (m *Nitro) NewSnapshot() (*Snapshot, error) {
 		w.count = 0
 	}
 
+	vyield(SiteNewSnapshot)
 	snap := &Snapshot{db: m, sn: m.GetCurrSn(), refCount: 1, count: m.ItemsCount()}
 	m.snapshots.Insert(unsafe.Pointer(snap), CompareSnapshot, buf, &m.snapshots.Stats)
 	snap.gclist = head
+	vyield(SiteNewSnapshot)
 	newSn := atomic.AddUint32(&m.currSn, 1)
 	if newSn == math.MaxUint32 {
 		return nil, ErrMaxSnapshotsLimitReached
@@ -646,35 +676,58 @@ func (m *Nitro) ItemsCount() int64 {
 }
 
 func (m *Nitro) collectionWorker(w *Writer) {
+	defer vexit()
 	buf := m.store.MakeBuf()
 	defer m.store.FreeBuf(buf)
 	defer m.shutdownWg1.Done()
+	vstart(SiteGCWStart, 0)
 
 	for {
+		if vsim() {
+			// Deterministic select: serve a waiting handshake first.
+			select {
+			case <-w.dwrCtx.notifyStatus:
+				venter(SiteGCWSelect, vblock(SiteGCWSelect))
+				w.doCheckpoint()
+				continue
+			default:
+			}
+		}
+		vt := vblock(SiteGCWSelect)
 		select {
 		case <-w.dwrCtx.notifyStatus:
+			venter(SiteGCWSelect, vt)
 			w.doCheckpoint()
 		case gclist, ok := <-m.gcchan:
+			venter(SiteGCWSelect, vt)
 			if !ok {
 				close(w.dwrCtx.closed)
 				return
 			}
 			for n := gclist; n != nil; n = n.GetLink() {
+				vyield(SiteGCWDelta)
 				w.doDeltaWrite((*Item)(n.Item()))
+				vyield(SiteGCWUnlink)
 				m.store.DeleteNode(n, m.insCmp, buf, &w.slSts2)
 			}
 
 			m.store.Stats.Merge(&w.slSts2)
 
 			barrier := m.store.GetAccesBarrier()
+			vyield(SiteGCWFlush)
 			barrier.FlushSession(unsafe.Pointer(gclist))
 		}
 	}
 }
 
 func (m *Nitro) freeWorker(w *Writer) {
+	defer vexit()
+	vstart(SiteFreeWStart, 0)
+	vt := vblock(SiteFreeWRecv)
 	for freelist := range m.freechan {
+		venter(SiteFreeWRecv, vt)
 		for n := freelist; n != nil; {
+			vyield(SiteFreeWNode)
 			dnode := n
 			n = n.GetLink()
 
@@ -684,7 +737,9 @@ func (m *Nitro) freeWorker(w *Writer) {
 		}
 
 		m.store.Stats.Merge(&w.slSts3)
+		vt = vblock(SiteFreeWRecv)
 	}
+	venter(SiteFreeWRecv, vt)
 
 	m.shutdownWg2.Done()
 }
@@ -703,20 +758,27 @@ func (m *Nitro) collectDead() {
 	for iter.SeekFirst(); iter.Valid(); iter.Next() {
 		node := iter.GetNode()
 		sn := (*Snapshot)(node.Item())
+		vyield(SiteCollectCheck)
 		if sn.sn != m.GetLastGCSn()+1 {
 			return
 		}
 
+		vyield(SiteCollectStore)
 		atomic.StoreUint32(&m.lastGCSn, sn.sn)
+		vt := vblock(SiteCollectSend)
 		m.gcchan <- sn.gclist
+		venter(SiteCollectSend, vt)
+		vyield(SiteCollectDelete)
 		m.gcsnapshots.DeleteNode(node, CompareSnapshot, buf2, &m.gcsnapshots.Stats)
 	}
 }
 
 // GC implements manual garbage collection of Nitro snapshots.
 func (m *Nitro) GC() {
+	vyield(SiteGCTry)
 	if atomic.CompareAndSwapInt32(&m.isGCRunning, 0, 1) {
 		m.collectDead()
+		vyield(SiteGCRelease)
 		atomic.CompareAndSwapInt32(&m.isGCRunning, 1, 0)
 	}
 }
@@ -771,6 +833,7 @@ func (m *Nitro) Visitor(snap *Snapshot, callb VisitorCallback, shards int, concu
 		pivotItems = append(pivotItems, nil) // start item
 		pivotPtrs := m.store.GetRangeSplitItems(shards)
 		for _, itmPtr := range pivotPtrs {
+			vyield(SiteVisitorPivot)
 			itm := m.ptrToItem(itmPtr)
 			tmpIter.Seek(itm.Bytes())
 			if tmpIter.Valid() {
@@ -791,8 +854,12 @@ func (m *Nitro) Visitor(snap *Snapshot, callb VisitorCallback, shards int, concu
 		wg.Add(1)
 		go func(wg *sync.WaitGroup) {
 			defer wg.Done()
+			defer vexit()
+			vstart(SiteVisitorWorker, 0)
 
+			vt := vblock(SiteVisitorRecv)
 			for shard := range wch {
+				venter(SiteVisitorRecv, vt)
 				startItem := pivotItems[shard]
 				endItem := pivotItems[shard+1]
 
@@ -815,22 +882,31 @@ func (m *Nitro) Visitor(snap *Snapshot, callb VisitorCallback, shards int, concu
 					}
 
 					itm := (*Item)(itr.GetNode().Item())
+					vyield(SiteVisitorItem)
 					if err := callb(itm, shard); err != nil {
 						errors[shard] = err
 						return
 					}
 				}
+				vt = vblock(SiteVisitorRecv)
 			}
+			venter(SiteVisitorRecv, vt)
 		}(&wg)
 	}
 
 	// Provide work and wait
 	for shard := 0; shard < len(pivotItems)-1; shard++ {
+		vt := vblock(SiteVisitorSend)
 		wch <- shard
+		venter(SiteVisitorSend, vt)
 	}
+	vt := vblock(SiteVisitorSend)
 	close(wch)
+	venter(SiteVisitorSend, vt)
 
+	vt = vblock(SiteVisitorWait)
 	wg.Wait()
+	venter(SiteVisitorWait, vt)
 
 	for _, err := range errors {
 		if err != nil {
@@ -863,21 +939,27 @@ func (m *Nitro) changeDeltaWrState(state int,
 		}
 
 		// send
+		vt := vblock(SiteDeltaSend)
 		select {
 		case w.dwrCtx.notifyStatus <- nil:
+			venter(SiteDeltaSend, vt)
 			break
 		case <-w.dwrCtx.closed:
+			venter(SiteDeltaSend, vt)
 			return ErrShutdown
 		}
 
 		// receive
+		vt = vblock(SiteDeltaRecv)
 		select {
 		case e := <-w.dwrCtx.notifyStatus:
+			venter(SiteDeltaRecv, vt)
 			if e != nil {
 				err = e
 			}
 			break
 		case <-w.dwrCtx.closed:
+			venter(SiteDeltaRecv, vt)
 			return ErrShutdown
 		}
 	}
@@ -910,8 +992,14 @@ func (m *Nitro) StoreToDisk(dir string, snap *Snapshot, concurr int, itmCallback
 
 	manifestdir := dir
 	datadir := filepath.Join(dir, "data")
+	if err := vfs("mkdir", datadir); err != nil {
+		return err
+	}
 	os.MkdirAll(datadir, 0755)
 	shards := runtime.NumCPU()
+	if n := vshards(); n > 0 {
+		shards = n
+	}
 
 	writers := make([]FileWriter, shards)
 	files := make([]string, shards)
@@ -928,6 +1016,9 @@ func (m *Nitro) StoreToDisk(dir string, snap *Snapshot, concurr int, itmCallback
 		w := m.newFileWriter(m.fileType)
 		file := fmt.Sprintf("shard-%d", shard)
 		datafile := filepath.Join(datadir, file)
+		if err := vfs("open", datafile); err != nil {
+			return err
+		}
 		if err := w.Open(datafile); err != nil {
 			return err
 		}
@@ -950,11 +1041,17 @@ func (m *Nitro) StoreToDisk(dir string, snap *Snapshot, concurr int, itmCallback
 		}()
 
 		deltadir := filepath.Join(dir, "delta")
+		if err := vfs("mkdir", deltadir); err != nil {
+			return err
+		}
 		os.MkdirAll(deltadir, 0755)
 		for id := 0; id < m.numWriters(); id++ {
 			dw := m.newFileWriter(m.fileType)
 			file := fmt.Sprintf("shard-%d", id)
 			deltafile := filepath.Join(deltadir, file)
+			if err = vfs("open", deltafile); err != nil {
+				return err
+			}
 			if err = dw.Open(deltafile); err != nil {
 				return err
 			}
@@ -979,12 +1076,18 @@ func (m *Nitro) StoreToDisk(dir string, snap *Snapshot, concurr int, itmCallback
 		defer func() {
 			if err = m.changeDeltaWrState(dwStateTerminate, nil, nil); err == nil {
 				bs, _ := json.Marshal(deltaFiles)
+				if err = vfs("writefile", filepath.Join(deltadir, "files.json")); err != nil {
+					return
+				}
 				err = ioutil.WriteFile(filepath.Join(deltadir, "files.json"), bs, 0660)
 				if err == nil {
 					for id, dwr := range deltaWriters {
 						deltaChecksums[id] = dwr.Checksum()
 					}
 					bs, _ = json.Marshal(deltaChecksums)
+					if err = vfs("writefile", filepath.Join(deltadir, "checksums.json")); err != nil {
+						return
+					}
 					err = ioutil.WriteFile(filepath.Join(deltadir, "checksums.json"), bs, 0660)
 				}
 			}
@@ -1009,15 +1112,24 @@ func (m *Nitro) StoreToDisk(dir string, snap *Snapshot, concurr int, itmCallback
 	}
 
 	manifest, _ := json.Marshal(map[string]interface{}{"version": version})
+	if err = vfs("writefile", filepath.Join(manifestdir, "nitro.json")); err != nil {
+		return err
+	}
 	if err = ioutil.WriteFile(filepath.Join(manifestdir, "nitro.json"), manifest, 0660); err == nil {
 		if err = m.Visitor(snap, visitorCallback, shards, concurr); err == nil {
 			bs, _ := json.Marshal(files)
+			if err = vfs("writefile", filepath.Join(datadir, "files.json")); err != nil {
+				return err
+			}
 			err = ioutil.WriteFile(filepath.Join(datadir, "files.json"), bs, 0660)
 			if err == nil {
 				for id, wr := range writers {
 					checksums[id] = wr.Checksum()
 				}
 				bs, _ = json.Marshal(checksums)
+				if err = vfs("writefile", filepath.Join(datadir, "checksums.json")); err != nil {
+					return err
+				}
 				err = ioutil.WriteFile(filepath.Join(datadir, "checksums.json"), bs, 0660)
 			}
 		}
@@ -1098,8 +1210,12 @@ func (m *Nitro) LoadFromDisk(dir string, concurr int, callb ItemCallback) (*Snap
 		wg.Add(1)
 		go func(wg *sync.WaitGroup) {
 			defer wg.Done()
+			defer vexit()
+			vstart(SiteLoadWorker, 0)
 
+			vt := vblock(SiteLoadRecv)
 			for shard := range wchan {
+				venter(SiteLoadRecv, vt)
 				r := readers[shard]
 			loop:
 				for {
@@ -1114,15 +1230,23 @@ func (m *Nitro) LoadFromDisk(dir string, concurr int, callb ItemCallback) (*Snap
 					}
 					segments[shard].Add(unsafe.Pointer(itm))
 				}
+				vt = vblock(SiteLoadRecv)
 			}
+			venter(SiteLoadRecv, vt)
 		}(&wg)
 	}
 
 	for i := range files {
+		vt := vblock(SiteLoadSend)
 		wchan <- i
+		venter(SiteLoadSend, vt)
 	}
+	vt := vblock(SiteLoadSend)
 	close(wchan)
+	venter(SiteLoadSend, vt)
+	vt = vblock(SiteLoadWait)
 	wg.Wait()
+	venter(SiteLoadWait, vt)
 	for i, rdr := range readers {
 		if checksums[i] != 0 && checksums[i] != rdr.Checksum() {
 			return nil, ErrCorruptSnapshot
@@ -1180,8 +1304,12 @@ func (m *Nitro) LoadFromDisk(dir string, concurr int, callb ItemCallback) (*Snap
 			wg.Add(1)
 			go func(wg *sync.WaitGroup, id int) {
 				defer wg.Done()
+				defer vexit()
+				vstart(SiteLoadDeltaWorker, id)
 
+				vt := vblock(SiteLoadRecv)
 				for shard := range wchan {
+					venter(SiteLoadRecv, vt)
 					r := readers[shard]
 				loop:
 					for {
@@ -1208,7 +1336,9 @@ func (m *Nitro) LoadFromDisk(dir string, concurr int, callb ItemCallback) (*Snap
 							w.resSts.DeltaRestoreFailed++
 						}
 					}
+					vt = vblock(SiteLoadRecv)
 				}
+				venter(SiteLoadRecv, vt)
 
 				// Aggregate stats
 				w := writers[id]
@@ -1219,10 +1349,16 @@ func (m *Nitro) LoadFromDisk(dir string, concurr int, callb ItemCallback) (*Snap
 		}
 
 		for i := range files {
+			vt := vblock(SiteLoadSend)
 			wchan <- i
+			venter(SiteLoadSend, vt)
 		}
+		vt := vblock(SiteLoadSend)
 		close(wchan)
+		venter(SiteLoadSend, vt)
+		vt = vblock(SiteLoadWait)
 		wg.Wait()
+		venter(SiteLoadWait, vt)
 
 		for i, rdr := range readers {
 			if deltaChecksums[i] != 0 && deltaChecksums[i] != rdr.Checksum() {
